@@ -155,7 +155,7 @@ func PrefixLists(rng *hutil.Rng, tier string) [][]string {
 }
 
 func GenPrefix(rng *hutil.Rng, id int, args []string) probe.Workspace {
-	ws := probe.Workspace{ID: id, Config: []string{"default", "default", "enable-all", "few-rules"}[rng.Below(4)], Custom: rng.Below(2) == 0,
+	ws := probe.Workspace{ID: id, Config: []string{"default", "enable-all", "default", "few-rules"}[id%4], Custom: rng.Below(2) == 0,
 		Files: prefixFiles(rng), Args: args}
 	return ws
 }
